@@ -105,7 +105,13 @@ func (self *printer) printComments(node *AstNode, prefix string) {
 		self.buf.WriteString("\"\n#\n\n")
 	}
 	for _, c := range node.scopeComments {
-		if self.lastComment.Line != 0 && self.lastComment.Line == c.Loc.Line-2 {
+		if self.lastComment.Line != 0 && self.lastComment.Line == c.Loc.Line-2 &&
+			!self.atBlankLineOrBlockStart() {
+			// Keep the blank line between the previous node and the
+			// comment, unless the caller already wrote one or the
+			// comment is the first thing in its block (otherwise the
+			// output would get a blank line which it loses again the
+			// next time it is formatted).
 			self.buf.WriteString(NEWLINE)
 		}
 
@@ -125,6 +131,16 @@ func (self *printer) printComments(node *AstNode, prefix string) {
 		self.noteWritten(c)
 	}
 	self.lastComment = node.Loc
+}
+
+// atBlankLineOrBlockStart returns true if the output so far ends with a
+// blank line or with the line that opens a block.
+func (self *printer) atBlankLineOrBlockStart() bool {
+	out := self.buf.String()
+	return strings.HasSuffix(out, NEWLINE+NEWLINE) ||
+		strings.HasSuffix(out, "("+NEWLINE) ||
+		strings.HasSuffix(out, "{"+NEWLINE) ||
+		strings.HasSuffix(out, "["+NEWLINE)
 }
 
 func (self *printer) WriteString(s string) (int, error) {
